@@ -267,6 +267,11 @@ func execOp(line string) string {
 			return "err"
 		}
 		return "ok " + showVal(v.Elem())
+	case "hist":
+		if len(w) != 6 {
+			return "bad-op"
+		}
+		return runHist(w[1], w[2], w[3], w[4], w[5])
 	case "api":
 		if len(w) != 2 {
 			return "bad-op"
@@ -311,6 +316,64 @@ func execOp(line string) string {
 		return resCoarse(hx.Hex(b), err)
 	}
 	return "bad-op"
+}
+
+var histSalt int64
+
+// runHist: plain-encode / tail-encode / plain-decode / tail-decode on types nobody has used yet
+// in this process, in the order given; the four answers are printed in the fixed order P;T;p;t.
+func runHist(order, elemS, vtext, plainHex, tailHex string) string {
+	elem, err := tyOf(elemS)
+	pb, err1 := hx.UnHex(plainHex)
+	tb, err2 := hx.UnHex(tailHex)
+	if err != nil || err1 != nil || err2 != nil || len(order) != 4 {
+		return "bad-op"
+	}
+	salt := "h" + strconv.FormatInt(atomic.AddInt64(&histSalt, 1), 10)
+	et := &Ty{K: "R", Fs: []Field{{"", elem}}}
+	plainTy := &Ty{K: "S", E: et}
+	tailTy := &Ty{K: "R", Fs: []Field{{"", &Ty{K: "u64"}}, {"tail", plainTy}}}
+	prt := goTypeSalted(plainTy, salt)
+	trt := goTypeSalted(tailTy, salt)
+	res := map[byte]string{}
+	for i := 0; i < 4; i++ {
+		switch order[i] {
+		case 'P':
+			v, err := buildVal(prt, vtext)
+			if err != nil {
+				return "bad-op"
+			}
+			b, err := encodePtr(v)
+			res['P'] = resCoarse(hx.Hex(b), err)
+		case 'T':
+			v, err := buildVal(trt, "L2,N7,"+vtext)
+			if err != nil {
+				return "bad-op"
+			}
+			b, err := encodePtr(v)
+			res['T'] = resCoarse(hx.Hex(b), err)
+		case 'p':
+			pv := reflect.New(prt)
+			if err := rlp.DecodeBytes(pb, pv.Interface()); err != nil {
+				res['p'] = "err"
+			} else {
+				res['p'] = "ok " + showVal(pv.Elem())
+			}
+		case 't':
+			pv := reflect.New(trt)
+			if err := rlp.DecodeBytes(tb, pv.Interface()); err != nil {
+				res['t'] = "err"
+			} else {
+				res['t'] = "ok " + showVal(pv.Elem())
+			}
+		default:
+			return "bad-op"
+		}
+	}
+	if len(res) != 4 {
+		return "bad-op"
+	}
+	return res['P'] + ";" + res['T'] + ";" + res['p'] + ";" + res['t']
 }
 
 // ---------------------------------------------------------------------------
@@ -420,6 +483,10 @@ func main() {
 		return
 	case "probe":
 		probeMain(a)
+		return
+	case "conc":
+		startWatchdog(60*time.Second, 3<<30)
+		concMain(a)
 		return
 	case "types":
 		for _, nt := range nodeTypes() {
